@@ -57,6 +57,7 @@ type Obligation struct {
 	Smoke   bool
 	Splits  [][]Term
 	NSplit  int
+	ViewGoal string // goal body with placeholder @V@ when the goal is forall v in 0..65536 :: body
 	// filled by the discharger
 	Res     SolverResult
 	exec    *Exec
@@ -136,6 +137,16 @@ type Exec struct {
 	usedLemmas     []string
 	revealOpaque   bool
 	calledContracts map[string]bool
+	viewFacts       []viewFact
+	pendingView     string // body (with placeholder) of the view-quantified goal being obliged
+}
+
+// viewFact: a premise of the form  forall v in 0..65536 :: B(v)  kept in instantiable form, so
+// that goals of the same form can be proved at one shared skolem constant (set extensionality).
+type viewFact struct {
+	at   int // index of the parent premise in assumps
+	pc   string
+	body string // B with the placeholder @V@
 }
 
 type modLoc struct {
@@ -349,7 +360,8 @@ func (e *Exec) obligeNamed(st *State, name, kind, tag string, goal Term, desc st
 	}
 	e.syncCtx(st.pc.S)
 	e.obls = append(e.obls, &Obligation{Name: name, Func: e.fn.Key, Kind: kind, Tag: tag, NAssump: len(e.assumps), NDecl: len(e.decls),
-		PC: st.pc, Goal: goal, Desc: desc, Pos: e.pos(p), Bounded: e.boundedK, Splits: append([][]Term(nil), st.leaves...)})
+		PC: st.pc, Goal: goal, Desc: desc, Pos: e.pos(p), Bounded: e.boundedK, Splits: append([][]Term(nil), st.leaves...), ViewGoal: e.pendingView})
+	e.pendingView = ""
 }
 
 func (e *Exec) note(kind, what string) {
